@@ -116,9 +116,18 @@ def dep_cone(rel: str) -> list[Path]:
     return [COQ / s for s in seen]
 
 
-def count_obligations(rel: str) -> dict:
+def count_obligations(rel: str, make_log: str = "") -> dict:
     """Statements (Theorem/Lemma/...) and closed proofs in the dependency cone of rel."""
     files = dep_cone(rel)
+    failed = set(re.findall(r"\*\*\* \[Makefile:\d+: (\S+)\.vo\] Error", make_log))
+    not_remade = set(re.findall(r"Target '(\S+)\.vo' not remade", make_log))
+    stale = set()
+    if failed:
+        # anything whose own cone contains a failed file was not re-checked in this build
+        for p in files:
+            r = str(p.relative_to(COQ))[:-2]
+            if r in failed or r in not_remade or any(str(q.relative_to(COQ))[:-2] in failed for q in dep_cone(r + ".v")):
+                stale.add(p)
     stmts = qeds = 0
     names = []
     for p in files:
@@ -126,7 +135,7 @@ def count_obligations(rel: str) -> dict:
         found = STMT.findall(txt)
         stmts += len(found)
         vo = p.with_suffix(".vo")
-        if vo.exists() and vo.stat().st_mtime >= p.stat().st_mtime:      # only proofs the kernel accepted in this build
+        if p not in stale and vo.exists() and vo.stat().st_mtime >= p.stat().st_mtime:   # only proofs the kernel accepted in this build
             qeds += len(re.findall(r"\b(Qed|Defined)\.", txt))
         if p.parent.name == "props":
             names += [n for _, n in found]
